@@ -1365,6 +1365,8 @@ class Engine:
         for op, rn in zip(node.ops, node.comparators):
             right = self.eval(rn, fr, cx)
             r = self.compare(op, left, right, cx, node.lineno)
+            if type(r).__name__ == 'XT' and len(node.ops) == 1:
+                return r          # element-wise comparison of tensors yields a tensor of (possibly symbolic) booleans, not a truth value
             if isinstance(r, SB) or isinstance(acc, SB):
                 ra = b2z(r)
                 acc = SB(ra) if acc is None else SB(z3.And(b2z(acc), ra))
